@@ -476,10 +476,12 @@ class XsdAnyElement(XsdWildcard, ParticleMixin,
         if isinstance(node, SchemaElementNode):
             return node
 
+        # a copy of the global nodes: the builder appends the new root to the list it
+        # receives, and this component is not a child of the schema node
         return build_schema_node_tree(
             root=self,
             elements=schema_node.elements,
-            global_elements=schema_node.children,
+            global_elements=schema_node.children[:],
         )
 
     def _parse(self) -> None:
